@@ -3,6 +3,7 @@ package checks
 import (
 	"bytes"
 	"encoding/binary"
+	"errors"
 	"fmt"
 	"runtime"
 	"strings"
@@ -15,6 +16,7 @@ import (
 	"p9verif/peers"
 	"p9verif/refcodec"
 
+	"github.com/hugelgupf/p9/linux"
 	"github.com/hugelgupf/p9/p9"
 	"pgregory.net/rapid"
 )
@@ -285,13 +287,13 @@ func runMuxCase(c muxCase, st *muxStats) *fail {
 			rep = refcodec.New(refcodec.Rgetattr, m.Tag, "valid", 0x3fff, "qid", refcodec.QID{Path: marker(m)}, "attr", a)
 		case refcodec.Twalk:
 			if p.call >= 0 && c.Calls[p.call] == "walkfail" {
-				rep, ok = refcodec.New(refcodec.Rlerror, m.Tag, "ecode", 2), false
+				rep, ok = refcodec.New(refcodec.Rlerror, m.Tag, "ecode", 1000+p.call), false // an errno of its own for every call
 			} else {
 				rep = refcodec.New(refcodec.Rwalk, m.Tag, "wqids", []refcodec.QID{{Path: marker(m)}})
 			}
 		case refcodec.Tclunk:
 			if p.call >= 0 && c.Calls[p.call] == "closefail" {
-				rep, ok = refcodec.New(refcodec.Rlerror, m.Tag, "ecode", 5), false
+				rep, ok = refcodec.New(refcodec.Rlerror, m.Tag, "ecode", 1000+p.call), false
 			} else {
 				rep = refcodec.New(refcodec.Rclunk, m.Tag)
 			}
@@ -420,6 +422,9 @@ func runMuxCase(c muxCase, st *muxStats) *fail {
 			wantErr := k == "walkfail" || k == "closefail"
 			if wantErr != (o.err != nil) {
 				return failf("reply-not-delivered-to-its-caller", "call %d (%s) returned err=%v although its own reply (an %s) was sent; case %+v", i, k, o.err, map[bool]string{true: "error", false: "success"}[wantErr], c)
+			}
+			if wantErr && !errors.Is(o.err, linux.Errno(1000+i)) {
+				return failf("call-received-another-calls-error", "call %d (%s) was refused with errno %d and returned %v (every refused call of the batch was given an errno of its own); case %+v", i, k, 1000+i, o.err, c)
 			}
 			if o.err == nil && (k == "getattr" || k == "statfs" || k == "read" || k == "walk") && o.mark != expectMark[i] {
 				detail := ""
